@@ -79,9 +79,10 @@ PickLimit ==
 RunTest ==
     /\ pc = "run"
     /\ ran' = AppendAt(ran, d, CurTc.id)
-    /\ IF CurTc.det THEN status' = "detached" /\ UNCHANGED clock
-       ELSE IF lim # None /\ CurTc.dur >= lim THEN status' = "timeout" /\ clock' = clock + lim
-       ELSE /\ clock' = clock + CurTc.dur
+    \* the limit was picked before scrut waits (`wait`), the command then runs under that limit
+    /\ IF CurTc.det THEN status' = "detached" /\ clock' = clock + CurTc.wait
+       ELSE IF lim # None /\ CurTc.dur >= lim THEN status' = "timeout" /\ clock' = clock + CurTc.wait + lim
+       ELSE /\ clock' = clock + CurTc.wait + CurTc.dur
             /\ status' = IF CurTc.beh = "signal" THEN "unknown" ELSE "code"   \* "exit" and "exitscript"
     /\ pc' = "handle"
     /\ UNCHANGED <<sc, d, k, lim, isGlobal, outs, res, wall, exit>>
